@@ -6,6 +6,8 @@
      Expect(kind)   ExpectInput… / ExpectSendMessage… (6 kinds, see MocksOracle)
      Send(m)        a message written to Input() resp. SendMessage(m)
      Batch(n)       SyncProducer.SendMessages with n messages
+     SetParts(t, n) TopicConfig.SetPartitions(map[string]int32{t: n}) on the mock, callable any number of times
+                    (topics without an override have the default count: 32 unless SetDefaultPartitions)
      Close          Close()
 
    Every action is computed with the step functions of MocksOracle (the same functions the trace
@@ -18,7 +20,7 @@
 EXTENDS MocksOracle, Json
 
 CONSTANTS Modes, PKs, NPA, NPD, RetS, Quirks, Kinds, MaxExp, MaxSend, Interleave,
-          MsgTopics, MsgKeys, MsgParts, BatchSizes, EmitCases
+          MsgTopics, MsgKeys, MsgParts, BatchSizes, SetTopics, SetCounts, MaxSet, FullScript, EmitCases
 
 VARIABLES cf, ps, hist
 vars == <<cf, ps, hist>>
@@ -36,7 +38,7 @@ Init ==
   /\ cf \in [mode : Modes, pk : PKs, np : {[ta |-> a, tb |-> d] : a \in NPA, d \in NPD},
              rets : RetS, quirks : {Quirks}]
   /\ cf.mode = "sync" => cf.rets
-  /\ ps = PInit
+  /\ ps = PInit0(cf.np.ta)
   /\ hist = <<>>
 
 \* messages a test would submit under the configured partitioner
@@ -55,8 +57,17 @@ Expect(k) ==
   /\ hist' = Append(hist, H("expect", k, NoMsg, 0, -1, 0, "-", NoOuts, <<>>, <<>>))
   /\ UNCHANGED cf
 
+NSet == Count(hist, LAMBDA h : h.op = "setparts")
+SetParts(t, n) ==
+  /\ NSet < MaxSet
+  /\ FullScript => ps.nexp = MaxExp
+  /\ ps' = PSetParts(ps, t, n)
+  /\ hist' = Append(hist, H("setparts", "-", [NoMsg EXCEPT !.topic = t], n, -1, 0, "-", NoOuts, <<>>, <<>>))
+  /\ UNCHANGED cf
+
 Send(m) ==
   /\ NMsgs < MaxSend
+  /\ FullScript => ps.nexp = MaxExp
   /\ \E p \in AllowedParts(cf, ps, m) :
        LET r == PSend(cf, ps, m, p) IN
        /\ ps' = r.ps
@@ -85,6 +96,7 @@ Next ==
   /\ \/ \E k \in Kinds : Expect(k)
      \/ \E m \in MsgSpace : Send(m)
      \/ \E n \in BatchSizes : Batch(n)
+     \/ \E t \in SetTopics, n \in SetCounts : SetParts(t, n)
      \/ Close
 Spec == Init /\ [][Next]_vars
 
@@ -139,24 +151,31 @@ OffsetsIncreasing ==
   /\ \A a, b \in DOMAIN s : a < b => s[a] < s[b]
   /\ (cf.rets /\ ~cf.quirks) => \A a \in DOMAIN s : s[a] = a
 
-\* partition chosen by the configured partitioner over the configured partition count
-ProcParts(t) ==     \* <<key, mpart, chosen partition>> of the processed messages of topic t, in order
+\* partition chosen by the configured partitioner over the partition count configured for the
+\* message's topic AT THAT TIME: the latest SetPartitions for the topic, else the count given at
+\* creation (topic ta), else the default
+ProcParts(t) ==     \* <<key, mpart, chosen partition, history index>> of the processed messages of topic t, in order
   LET RECURSIVE F(_)
       F(i) == IF i = 0 THEN <<>>
               ELSE F(i - 1) \o
                    (IF hist[i].op = "send" /\ hist[i].took # 0 /\ hist[i].topic = t
-                      THEN <<<<hist[i].key, hist[i].mpart, hist[i].p>>>>
+                      THEN <<<<hist[i].key, hist[i].mpart, hist[i].p, i>>>>
                     ELSE IF hist[i].op = "batch" /\ t = "ta"
-                      THEN [k \in DOMAIN hist[i].parts |-> <<BatchMsg(1).key, BatchMsg(1).mpart, hist[i].parts[k]>>]
+                      THEN [k \in DOMAIN hist[i].parts |-> <<BatchMsg(1).key, BatchMsg(1).mpart, hist[i].parts[k], i>>]
                     ELSE <<>>)
   IN F(Len(hist))
+CountAt(t, i) ==
+  LET S == {j \in 1..(i - 1) : hist[j].op = "setparts" /\ hist[j].topic = t} IN
+  IF S # {} THEN hist[CHOOSE j \in S : \A q \in S : q <= j].n
+  ELSE IF t = "ta" /\ cf.np.ta > 0 THEN cf.np.ta ELSE cf.np.tb
 PartitionChoice ==
   \A t \in Topics :
-    LET s == ProcParts(t)
-        n == cf.np[t] IN
+    LET s == ProcParts(t) IN
     \A j \in DOMAIN s :
+      LET n == CountAt(t, s[j][4])
+          prev == IF j = 1 THEN -1 ELSE s[j - 1][3] IN
       CASE cf.pk = "manual" -> s[j][3] = s[j][2]
-        [] cf.pk = "rr" -> s[j][3] = (j - 1) % n
+        [] cf.pk = "rr" -> s[j][3] = IF prev + 1 >= n THEN 0 ELSE prev + 1   \* roundRobinPartitioner as it is
         [] cf.pk = "hash" -> IF s[j][1] = NoKey THEN s[j][3] \in 0..(n - 1) ELSE s[j][3] = HashPart(s[j][1], n)
 OutcomeCarriesPartition ==
   \A i \in Sends : \A o \in ToSet(hist[i].outs) :
